@@ -30,7 +30,7 @@ func ws(pkg, sub string) string { return mustRemote(pkg).Package().SourceAddr(su
 func basePkgs() []WPkg {
 	return []WPkg{
 		{Addr: P1, Locs: []string{"", "m", "m/n"}, MetaID: "1111111111111111111111111111111111111111", MetaMsg: "first commit"},
-		{Addr: P2, Locs: []string{"", "m"}, NilMeta: true},
+		{Addr: P2, Locs: []string{"", "m"}, MetaMsg: "a message without a commit id"},
 		{Addr: P3, Locs: []string{"", "sub", "sub/m"}, MetaID: "3333333333333333333333333333333333333333"},
 		{Addr: P4, Content: P1, Locs: []string{"", "m", "m/n"}, MetaID: "4444444444444444444444444444444444444444", MetaMsg: "same tree, other address"},
 		{Addr: P5, Content: P1, Locs: []string{"", "m", "m/n"}, Files: []TNode{{Path: "m/extra", Kind: "file", Body: "x"}}, NilMeta: true},
@@ -320,7 +320,7 @@ func judgeC08(sc scenario, c *RefClosure, out BuildOut) (viol [][2]string) {
 	for pa := range c.Packages {
 		p := sc.world().pkg(pa)
 		want := ""
-		if !p.NilMeta && p.MetaID != "" {
+		if !p.NilMeta && (p.MetaID != "" || p.MetaMsg != "") {
 			want = p.MetaID + "|" + p.MetaMsg
 		}
 		key := mustRemote(pa).Package().String()
